@@ -285,7 +285,7 @@ PROPS["C15"] = dict(
          "classes 'code:<NAME>' in this file list which codes real inputs produced.",
     assumptions=["necessary conditions per code are written from the property statement and the message texts; domain codes are judged on the "
                  "A-label form in mode 6531 (libidn2 trusted)", "message wording is not frozen: only 'same code => same text', pairwise different "
-                 "texts, and the keywords local / domain|label / ip / TLD / RFC plus the three phrases quoted in the statement are required",
+                 "texts, the keywords local / domain|label / ip / TLD / RFC, the three phrases quoted in the statement and one concept word per code (with synonyms: e.g. 'hyphen|dash' for MISPLACED_HYPHEN) are required",
                  "root-dot spellings are not judged for TLD-level codes (outside C07/C09)"],
     min_evaluations=dict(quick=3_000_000, thorough=30_000_000),
     technique="per-error-code necessary-condition predicates (independent of the implementation) + differential against the public per-part validators, over mutation-based and rapidcheck-generated inputs",
